@@ -29,6 +29,8 @@ MUTANTS["C18"] = [
     ("bad-regex-in-quidway-branch", "annet/rulebook/texts/huawei.rul", "    %if hw.Quidway:", "    %if hw.Quidway:\n    foo */(Vlanif[0-9+/"),
     ("find-true-seq-no-recursion-guard", "annet/annlib/netdev/db.py", "            sequences.update(find_true_sequences(hw_model, meta[\"children\"]))", "        sequences.update(find_true_sequences(hw_model, meta[\"children\"]))"),
     ("hardware-equality-ignores-letter-case", "annet/annlib/netdev/views/hardware.py", "    def __hash__(self):\n        return hash(self.model)\n\n    def __eq__(self, other):\n        return self.model == other.model", "    def __hash__(self):\n        return hash(self.model.lower())\n\n    def __eq__(self, other):\n        return self.model.lower() == other.model.lower()"),
+    ("registry-remembers-the-vendors-of-its-first-answer", "annet/vendors/registry.py", "        for name, vendor in self.vendors.items():\n            for item in vendor.match():", "        if not self._matchers:\n            self._matchers = dict(self.vendors)\n        for name, vendor in self._matchers.items():\n            for item in vendor.match():"),
+    ("huawei-rul-two-family-branch-names-missing-logic", "annet/rulebook/texts/huawei.rul", "    jumboframe enable", "%if hw.Huawei.Quidway and hw.Huawei.SI:\n    jumboframe enable %logic=huawei.iface.undo_redo\n%else:\n    jumboframe enable\n%endif"),
 ]
 
 MUTANTS["C12"] = [
